@@ -378,7 +378,9 @@ def authorize (st : State) (mgr : Bool) (uid : Option Str) (c : Cmd) : Verdict :
   else
     match c with
     | .store et _ => if mgr then checkId uid (fun u => canWrite st u et) else .proceed
-    | .query head _ => if mgr then checkId uid (fun u => canRead st u head) else .proceed
+    | .query head tail =>
+      -- head type, then every FOLLOWED BY / PRECEDED BY target (fix 6e1140a); all answer 403
+      if mgr then checkId uid (fun u => canRead st u head && tail.all (fun t => canRead st u t)) else .proceed
     | .define _ => if mgr then checkId uid (fun u => isAdmin st u) else .proceed
     | .createUser .. | .revokeKey _ | .listUsers | .grant .. | .revoke .. | .showPermissions _ =>
       if mgr then checkId uid (fun u => isAdmin st u) else .internal
@@ -392,6 +394,7 @@ inductive IdCheck | ok | invalid | tooLong
 
 def validateUserId (alnum : Char → Bool) (id : Str) : IdCheck :=
   if id.isEmpty then .invalid
+  else if reservedIds.contains id then .invalid   -- `bypass`, `no-auth` (fix 8e1fb08)
   else if utf8Len id > maxUserIdLength then .tooLong
   else if !id.all (fun c => alnum c || c == '_' || c == '-') then .invalid
   else .ok
@@ -612,6 +615,11 @@ def regrants (id et : Str) : Later → Bool
   | .setPerm u e _ => u == id && e == et
   | .dropPerm u e => u == id && e == et
   | _ => false
+
+/-- No account carries the reserved id `bypass`. Holds in every state reachable through the
+API from an empty user table (`validate_user_id` refuses the id); an account persisted by a
+pre-fix server and loaded from the auth WAL is outside that set. -/
+def NoBypassAccount (st : State) : Prop := findUser st bypassUserId = none
 
 def isHex (c : Char) : Bool :=
   (48 ≤ c.toNat && c.toNat ≤ 57) || (97 ≤ c.toNat && c.toNat ≤ 102)
